@@ -6,6 +6,9 @@ import (
 	"go/ast"
 	"go/token"
 	"go/types"
+	"sort"
+	"strconv"
+	"strings"
 
 	"golang.org/x/tools/go/ssa"
 )
@@ -17,6 +20,29 @@ func (x *Exec) localsOf(fr *Frame, st *State, pos token.Pos) func(string) (TV, b
 		switch name {
 		case "rangeiter":
 			name = "rangeint.iter"
+		}
+		// "name__n": the n-th declaration (in source order) of a local called name
+		if i := strings.LastIndex(name, "__"); i > 0 {
+			if n, err := strconv.Atoi(name[i+2:]); err == nil && n > 0 {
+				var cands []*ssa.Alloc
+				for _, b := range fr.fn.Blocks {
+					for _, in := range b.Instrs {
+						if a, ok := in.(*ssa.Alloc); ok && a.Comment == name[:i] {
+							cands = append(cands, a)
+						}
+					}
+				}
+				sort.Slice(cands, func(i, j int) bool { return cands[i].Pos() < cands[j].Pos() })
+				if n <= len(cands) {
+					a := cands[n-1]
+					et := a.Type().(*types.Pointer).Elem()
+					if v, ok := st.cells[a]; ok {
+						return TV{v, et}, true
+					}
+					return TV{x.fresh(et, "undecl."+name), et}, true
+				}
+				return TV{}, false
+			}
 		}
 		var best *ssa.Alloc
 		for _, b := range fr.fn.Blocks {
